@@ -93,8 +93,25 @@ Proof.
   rewrite (proj2 (Rltb_false y t) H1). lra.
 Qed.
 
+Lemma wlt_mono S t t' : Forall (fun e : R * R => 0 < snd e) S -> t <= t' -> wlt S t <= wlt S t'.
+Proof.
+  intros Hw Ht. induction S as [| [y w] S' IH]; cbn [wlt]; [lra|].
+  inversion Hw as [| ? ? H1 H2]; subst. cbn in H1. specialize (IH H2).
+  destruct (Rltb y t) eqn:E1; destruct (Rltb y t') eqn:E2; try lra.
+  apply Rltb_true in E1. apply Rltb_false in E2. lra.
+Qed.
+
 Definition is_wquantile (a : R) (S : list (R * R)) (t : R) : Prop :=
   wlt S t <= a * wtot S <= wle S t.
+
+(* the weighted a-quantiles of a sample form an interval *)
+Theorem wquantile_interval : forall a S s t u, Forall (fun e : R * R => 0 < snd e) S ->
+  is_wquantile a S s -> is_wquantile a S t -> s <= u <= t -> is_wquantile a S u.
+Proof.
+  intros a S s t u Hw [_ Hs] [Ht _] [H1 H2]. split.
+  - pose proof (wlt_mono S u t Hw H2). lra.
+  - pose proof (wle_mono S s u Hw H1). lra.
+Qed.
 
 (* (i) identification function: weighted sum of the GENERATED V of the quantile *)
 Theorem wquantile_ident_sum : forall a S t, 0 < a < 1 ->
